@@ -102,6 +102,12 @@ ASSUME \A r \in AmountRules : \E a \in AmountFew : \A e \in ExpiryFew : Violated
 ASSUME \A r \in {"ExpiryTooSoon", "ExpiryTooFar", "IncorrectCltvExpiry", "CltvDeltaTooFar"} :
          \E e \in ExpiryFew : \A a \in AmountFew : Violated(Mk(a, e)) \ AmountRules = {r}
 
+\* the boolean form of the judgement (used by Apalache) is the set form, for every verdict
+Verdicts == {"ok", "FeeInsufficient", "AmountBelowMinimum", "HtlcExceedsMax", "InsufficientBalance",
+             "ExpiryTooSoon", "ExpiryTooFar", "IncorrectCltvExpiry", "TemporaryChannelFailure", "TemporaryNodeFailure"}
+BoolFormIsSetForm == pc # "pick" => \A v \in Verdicts : /\ AgreeB(c, v) <=> Agree(c, v)
+                                                        /\ AgreeTransitB(c, v) <=> AgreeTransit(c, v)
+
 MCNext == (pc = "pick" /\ (LatticePick(PickFwd) \/ LatticePick(PickTransit))) \/ Decide
 MCSpec == Init /\ [][MCNext]_vars
 =============================================================================
